@@ -30,6 +30,14 @@ Definition no_underflow (a b : N) : Prop := b <= a.
 (* NonZeroUN::new_unchecked(e): e = 0 is undefined behaviour *)
 Definition nonzero_arg (bits e : N) : Prop := e <> 0 /\ e <= umax bits.
 
+(* the checked forms: `uN::try_from(x).ok()` (None iff x > uN::MAX), `a.checked_add(b)` on uN (None iff a + b > uN::MAX),
+   `NonZeroUN::new(e)` (None iff e = 0), and `?` / and_then on Option *)
+Definition try_from_int (bits x : N) : option N := if x <=? umax bits then Some x else None.
+Definition checked_add (bits a b : N) : option N := if a + b <=? umax bits then Some (a + b) else None.
+Definition nz_new (e : N) : option N := if e =? 0 then None else Some e.
+Definition obind {A B : Type} (o : option A) (f : A -> option B) : option B :=
+  match o with Some a => f a | None => None end.
+
 (* a.saturating_sub(b) is N's truncated subtraction *)
 Definition sat_sub (a b : N) : N := a - b.
 
